@@ -270,7 +270,9 @@ func runHarness(ix *Index, h *Harness, tier string, solverOverride string) *RunR
 	e.known = loadKnown(h.ID)
 	st := newState()
 	e.tolerant = true
+	e.MaxIter = 1 << 20 // initialisers run concretely; table-building loops are long
 	e.runInit(st, target)
+	e.MaxIter = tc.Unwind
 	e.tolerant = false
 	e.Instrs = 0
 	e.Entered = map[string]bool{}
